@@ -6,8 +6,8 @@ namespace StoneVerif.Graph
 argument and a call on an unseen one holds when the walk ends. -/
 theorem dfs_induction (g : Graph) (P : List Item → St → Prop)
     (hskip : ∀ it rest st, st.seen.contains it.key = true → P (it :: rest) st → P rest st)
-    (hvisit : ∀ it rest st kids rts, st.seen.contains it.key = false → expand g it = .ok (kids, rts) →
-        P (it :: rest) st → P (kids ++ rest) (st.visit g it rts)) :
+    (hvisit : ∀ it rest st kids, st.seen.contains it.key = false → expand g it = .ok kids →
+        P (it :: rest) st → P (kids ++ rest) (st.visit g it)) :
     ∀ fuel stack st st', dfs g fuel stack st = .ok st' → P stack st → P [] st' := by
   intro fuel
   induction fuel with
@@ -32,8 +32,8 @@ theorem dfs_induction (g : Graph) (P : List Item → St → Prop)
       · rename_i hseen
         split at h
         · simp at h
-        · rename_i kids rts he
-          exact ih _ _ st' h (hvisit it rest st kids rts (by simpa using hseen) he hp)
+        · rename_i kids he
+          exact ih _ _ st' h (hvisit it rest st kids (by simpa using hseen) he hp)
 
 /-! ### soundness: the walk stays inside every closed set that contains its starting points -/
 
@@ -41,17 +41,16 @@ theorem dfs_sound {g : Graph} (hwf : g.refsOk = true) (hda : docsAgree g = true)
     (hT : ∀ a b, T a → Edge g a b → T b) {fuel : Nat} {stack : List Item} {st st' : St}
     (h : dfs g fuel stack st = .ok st')
     (hstack : ∀ it ∈ stack, ItemOk g T it) (htypes : ∀ t ∈ st.types, T t)
-    (hroutes : ∀ r ∈ st.routes, T r ∧ r ∈ docRoutes g) :
-    (∀ t ∈ st'.types, T t) ∧ (∀ r ∈ st'.routes, T r ∧ r ∈ docRoutes g) := by
+    (hroutes : ∀ r ∈ st.routes, T r) :
+    (∀ t ∈ st'.types, T t) ∧ (∀ r ∈ st'.routes, T r) := by
   have := dfs_induction g
-    (fun stack st => (∀ it ∈ stack, ItemOk g T it) ∧ (∀ t ∈ st.types, T t) ∧
-      (∀ r ∈ st.routes, T r ∧ r ∈ docRoutes g))
+    (fun stack st => (∀ it ∈ stack, ItemOk g T it) ∧ (∀ t ∈ st.types, T t) ∧ (∀ r ∈ st.routes, T r))
     (by
       intro it rest st _ hp
       exact ⟨fun k hk => hp.1 k (List.mem_cons_of_mem _ hk), hp.2⟩)
     (by
-      intro it rest st kids rts _ he hp
-      obtain ⟨hk, hr⟩ := expand_sound hwf hda hT (hp.1 it (List.mem_cons_self ..)) he
+      intro it rest st kids _ he hp
+      have hk := expand_sound hwf hda hT (hp.1 it (List.mem_cons_self ..)) he
       refine ⟨?_, ?_, ?_⟩
       · intro k hk'
         rcases List.mem_append.1 hk' with h | h
@@ -70,11 +69,19 @@ theorem dfs_sound {g : Graph} (hwf : g.refsOk = true) (hda : docsAgree g = true)
               exact hp.1 _ (List.mem_cons_self ..)
           · exact hp.2.1 t ht
         | field o f ctx => exact hp.2.1 t ht
-      · intro r hr'
-        simp only [St.visit] at hr'
-        rcases List.mem_append.1 hr' with h | h
-        · exact hp.2.2 r h
-        · exact hr r h)
+      · intro r hr
+        simp only [St.visit] at hr
+        cases it with
+        | node id =>
+          simp only at hr
+          split at hr
+          · rcases List.mem_append.1 hr with h | h
+            · exact hp.2.2 r h
+            · have : r = id := by simpa using h
+              subst this
+              exact hp.1 _ (List.mem_cons_self ..)
+          · exact hp.2.2 r hr
+        | field o f ctx => exact hp.2.2 r hr)
     fuel stack st st' h ⟨hstack, htypes, hroutes⟩
   exact this.2
 
@@ -108,71 +115,58 @@ theorem covered_kid {seen rest kids : List Item} {c : Item} (h : c ∈ kids) :
   simp only [List.map_append, List.mem_append]
   exact Or.inl (List.mem_map_of_mem h)
 
-/-- the io types of the routes an invocation adds are among its calls -/
-theorem expand_io {g : Graph} {it : Item} {kids : List Item} {rts : List Id}
-    (he : expand g it = .ok (kids, rts)) : ∀ r ∈ rts, ∀ b ∈ ioOf g r, Item.node b ∈ kids := by
-  intro r hr b hb
-  cases it with
-  | node id =>
-    simp only [expand] at he
-    split at he
-    · simp at he
-    · rename_i nd hnd
-      split at he
-      · simp at he
-      · split at he
-        · simp at he
-        · rename_i ts rts' _
-          split at he
-          · simp at he
-          · rename_i io hio
-            simp only [Except.ok.injEq, Prod.mk.injEq] at he
-            obtain ⟨hk, hr'⟩ := he
-            subst hk hr'
-            have := ((routesIo_ok hio).2 b).2 ⟨r, hr, hb⟩
-            simp only [List.mem_map, List.mem_append]
-            exact ⟨b, Or.inr this, rfl⟩
-      · split at he
-        · simp at he
-        · split at he
-          · simp at he
-          · rename_i ts rts' _
-            split at he
-            · simp at he
-            · rename_i io hio
-              simp only [Except.ok.injEq, Prod.mk.injEq] at he
-              obtain ⟨hk, hr'⟩ := he
-              subst hk hr'
-              have := ((routesIo_ok hio).2 b).2 ⟨r, hr, hb⟩
-              apply List.mem_append_right
-              simp only [List.mem_map, List.mem_append]
-              exact ⟨b, Or.inl (Or.inr this), rfl⟩
-  | field o f ctx =>
-    simp only [expand] at he
-    split at he
-    · simp at he
-    · rename_i ts rts' _
-      split at he
-      · simp at he
-      · rename_i io hio
-        simp only [Except.ok.injEq, Prod.mk.injEq] at he
-        obtain ⟨hk, hr'⟩ := he
-        subst hk hr'
-        have := ((routesIo_ok hio).2 b).2 ⟨r, hr, hb⟩
-        simp only [List.mem_map, List.mem_append]
-        exact ⟨b, Or.inr this, rfl⟩
-
-/-- the record kept for a marked key: the invocation that marked it, what it called, what it added -/
-def Done (g : Graph) (seen stack : List Item) (routes : List Id) (k : Item) : Prop :=
-  ∃ it kids rts, it.key = k ∧ ItemOk g (fun _ => True) it ∧ expand g it = .ok (kids, rts) ∧
-    (∀ c ∈ kids, Covered seen stack c.key) ∧ (∀ r ∈ rts, r ∈ routes)
+/-- the record kept for a marked key: the invocation that marked it and what it called -/
+def Done (g : Graph) (seen stack : List Item) (k : Item) : Prop :=
+  ∃ it kids, it.key = k ∧ ItemOk g (fun _ => True) it ∧ expand g it = .ok kids ∧
+    (∀ c ∈ kids, Covered seen stack c.key)
 
 structure Inv (g : Graph) (stack0 : List Item) (stack : List Item) (st : St) : Prop where
   wf : ∀ it ∈ stack, ItemOk g (fun _ => True) it
-  done : ∀ k ∈ st.seen, Done g st.seen stack st.routes k
-  rio : ∀ r ∈ st.routes, ∀ b ∈ ioOf g r, Covered st.seen stack (Item.node b)
+  done : ∀ k ∈ st.seen, Done g st.seen stack k
   types : ∀ i, i ∈ st.types ↔ (Item.node i ∈ st.seen ∧ g.isTypeId i = true)
+  routes : ∀ i, i ∈ st.routes ↔ (Item.node i ∈ st.seen ∧ g.isRouteId i = true)
   init : ∀ it ∈ stack0, Covered st.seen stack it.key
+
+/-- `out` (the data types, or the routes) collects exactly the marked nodes that satisfy `p` -/
+theorem visit_collects {seen : List Item} {out : List Id} {p : Id → Bool} {it : Item}
+    (h : ∀ i, i ∈ out ↔ (Item.node i ∈ seen ∧ p i = true)) :
+    ∀ i, i ∈ (match it with
+        | .node id => if p id then out ++ [id] else out
+        | .field .. => out) ↔ (Item.node i ∈ it.key :: seen ∧ p i = true) := by
+  intro i
+  simp only [List.mem_cons]
+  cases it with
+  | node id =>
+    simp only [Item.key]
+    split
+    · rename_i hty
+      simp only [List.mem_append, List.mem_singleton, h i]
+      constructor
+      · rintro (h | rfl)
+        · exact ⟨Or.inr h.1, h.2⟩
+        · exact ⟨Or.inl rfl, hty⟩
+      · rintro ⟨h | h, h2⟩
+        · right; exact (Item.node.injEq _ _ ▸ h : i = id)
+        · left; exact ⟨h, h2⟩
+    · rename_i hty
+      rw [h i]
+      constructor
+      · rintro ⟨h1, h2⟩
+        exact ⟨Or.inr h1, h2⟩
+      · rintro ⟨h | h, h2⟩
+        · have : i = id := by simpa using h
+          subst this
+          exact absurd h2 hty
+        · exact ⟨h, h2⟩
+  | field o f ctx =>
+    simp only [Item.key]
+    rw [h i]
+    constructor
+    · rintro ⟨h1, h2⟩
+      exact ⟨Or.inr h1, h2⟩
+    · rintro ⟨h | h, h2⟩
+      · cases h
+      · exact ⟨h, h2⟩
 
 theorem inv_final {g : Graph} (hwf : g.refsOk = true) (hda : docsAgree g = true) {stack0 : List Item}
     {fuel : Nat} {stack : List Item} {st st' : St} (h : dfs g fuel stack st = .ok st')
@@ -180,21 +174,15 @@ theorem inv_final {g : Graph} (hwf : g.refsOk = true) (hda : docsAgree g = true)
   refine dfs_induction g (Inv g stack0) ?_ ?_ fuel stack st st' h hinv
   · intro it rest st hseen hp
     have hs : it.key ∈ st.seen := by simpa using hseen
-    refine ⟨fun k hk => hp.wf k (List.mem_cons_of_mem _ hk), ?_, ?_, hp.types, ?_⟩
+    refine ⟨fun k hk => hp.wf k (List.mem_cons_of_mem _ hk), ?_, hp.types, hp.routes, ?_⟩
     · intro k hk
-      obtain ⟨it', kids, rts, h1, h2, h3, h4, h5⟩ := hp.done k hk
-      exact ⟨it', kids, rts, h1, h2, h3, fun c hc => covered_skip hs (h4 c hc), h5⟩
-    · intro r hr b hb
-      exact covered_skip hs (hp.rio r hr b hb)
+      obtain ⟨it', kids, h1, h2, h3, h4⟩ := hp.done k hk
+      exact ⟨it', kids, h1, h2, h3, fun c hc => covered_skip hs (h4 c hc)⟩
     · intro i hi
       exact covered_skip hs (hp.init i hi)
-  · intro it rest st kids rts hseen he hp
-    have hns : it.key ∉ st.seen := by
-      intro hc
-      have : st.seen.contains it.key = true := by simpa using hc
-      rw [this] at hseen; cases hseen
+  · intro it rest st kids hseen he hp
     have hitok := hp.wf it (List.mem_cons_self ..)
-    obtain ⟨hkids, _⟩ := expand_sound hwf hda (T := fun _ => True) (fun _ _ _ _ => trivial) hitok he
+    have hkids := expand_sound hwf hda (T := fun _ => True) (fun _ _ _ _ => trivial) hitok he
     refine ⟨?_, ?_, ?_, ?_, ?_⟩
     · intro k hk
       rcases List.mem_append.1 hk with h | h
@@ -203,50 +191,13 @@ theorem inv_final {g : Graph} (hwf : g.refsOk = true) (hda : docsAgree g = true)
     · intro k hk
       simp only [St.visit, List.mem_cons] at hk
       rcases hk with rfl | hk
-      · exact ⟨it, kids, rts, rfl, hitok, he, fun c hc => covered_kid hc,
-          fun r hr => by simp only [St.visit]; exact List.mem_append_right _ hr⟩
-      · obtain ⟨it', kids', rts', h1, h2, h3, h4, h5⟩ := hp.done k hk
-        exact ⟨it', kids', rts', h1, h2, h3, fun c hc => covered_visit (h4 c hc),
-          fun r hr => by simp only [St.visit]; exact List.mem_append_left _ (h5 r hr)⟩
-    · intro r hr b hb
-      simp only [St.visit] at hr ⊢
-      rcases List.mem_append.1 hr with h | h
-      · exact covered_visit (hp.rio r h b hb)
-      · exact covered_kid (expand_io he r h b hb)
-    · intro i
-      simp only [St.visit, List.mem_cons]
-      cases it with
-      | node id =>
-        simp only [Item.key]
-        split
-        · rename_i hty
-          simp only [List.mem_append, List.mem_singleton, hp.types i]
-          constructor
-          · rintro (h | rfl)
-            · exact ⟨Or.inr h.1, h.2⟩
-            · exact ⟨Or.inl rfl, hty⟩
-          · rintro ⟨h | h, h2⟩
-            · right; exact (Item.node.injEq _ _ ▸ h : i = id)
-            · left; exact ⟨h, h2⟩
-        · rename_i hty
-          rw [hp.types i]
-          constructor
-          · rintro ⟨h1, h2⟩
-            exact ⟨Or.inr h1, h2⟩
-          · rintro ⟨h | h, h2⟩
-            · have : i = id := by simpa using h
-              subst this
-              exact absurd h2 hty
-            · exact ⟨h, h2⟩
-      | field o f ctx =>
-        simp only [Item.key]
-        rw [hp.types i]
-        constructor
-        · rintro ⟨h1, h2⟩
-          exact ⟨Or.inr h1, h2⟩
-        · rintro ⟨h | h, h2⟩
-          · cases h
-          · exact ⟨h, h2⟩
+      · exact ⟨it, kids, rfl, hitok, he, fun c hc => covered_kid hc⟩
+      · obtain ⟨it', kids', h1, h2, h3, h4⟩ := hp.done k hk
+        exact ⟨it', kids', h1, h2, h3, fun c hc => covered_visit (h4 c hc)⟩
+    · simp only [St.visit]
+      exact visit_collects (p := g.isTypeId) hp.types
+    · simp only [St.visit]
+      exact visit_collects (p := g.isRouteId) hp.routes
     · intro i hi
       simp only [St.visit]
       exact covered_visit (hp.init i hi)
